@@ -12,7 +12,10 @@ import json, os, re, shutil, subprocess, sys, time, hashlib, concurrent.futures
 ROOT = os.path.dirname(os.path.dirname(os.path.abspath(__file__)))
 SPEC = os.path.join(ROOT, "spec")
 HARNESS = os.path.join(ROOT, "harness")
-REPO = "/repo"
+# Mutant evaluation only (tools/eval_seeded.py): build against a scratch copy of the repository and keep
+# scratch output / evidence apart. The registered checks never set these variables and use /repo itself.
+REPO = os.environ.get("VERIF_REPO", "/repo")
+OUT_SUFFIX = os.environ.get("VERIF_OUT_SUFFIX", "")
 TLA_CP = "/opt/veriftools/tla/tla2tools.jar:/opt/veriftools/tla/CommunityModules-deps.jar"
 
 GOENV = dict(os.environ, GOFLAGS="-mod=mod", GOPROXY="off", GOSUMDB="off", GOTOOLCHAIN="local")
@@ -36,7 +39,7 @@ def die(msg, code=2):
 # --------------------------------------------------------------------------
 
 def outdir(pid):
-    d = os.path.join(ROOT, "out", pid)
+    d = os.path.join(ROOT, "out", pid + OUT_SUFFIX)
     shutil.rmtree(d, ignore_errors=True)
     os.makedirs(d)
     # TLC litters its working directory: run it in a private copy of the specs
@@ -167,7 +170,15 @@ def merge_counts(dicts):
 def build_harness(d, race=False):
     """Build the harness against /repo's current working tree (replace directive)."""
     binp = os.path.join(d, "harness_race" if race else "harness")
-    cmd = ["go", "build", "-tags", "verif"] + (["-race"] if race else []) + ["-o", binp, "."]
+    modflag = []
+    if REPO != "/repo":
+        mf = os.path.join(d, "alt.mod")
+        with open(os.path.join(HARNESS, "go.mod")) as f:
+            txt = f.read().replace("=> /repo", "=> " + REPO)
+        with open(mf, "w") as f:
+            f.write(txt)
+        modflag = ["-modfile=" + mf]
+    cmd = ["go", "build", "-tags", "verif"] + modflag + (["-race"] if race else []) + ["-o", binp, "."]
     p = subprocess.run(cmd, cwd=HARNESS, env=GOENV, stdout=subprocess.PIPE, stderr=subprocess.STDOUT, text=True, timeout=900)
     if p.returncode != 0:
         raise ToolFailure("harness build failed:\n" + p.stdout[-3000:])
@@ -221,6 +232,43 @@ def judge_histories(d, tp_module, hist_path, props, shards=8, heap="2g", timeout
     return fails, drifts, merge_counts(sums)
 
 
+def trace_validate(d, module, hist_path, keep=None, shards=8, heap="3g", timeout=1500):
+    """Classic trace validation: every history of the file must be explained by the operational spec
+    (TRACE-OK printed per accepted history). Returns (validated, accepted ids, states, transitions)."""
+    sel = hist_path + ".tv"
+    ids = []
+    with open(hist_path) as f, open(sel, "w") as g:
+        for line in f:
+            if not line.strip():
+                continue
+            r = json.loads(line)
+            if keep is None or keep(r):
+                g.write(line)
+                ids.append(r["scn"])
+    if not ids:
+        return 0, set(), 0, 0
+    parts = shard_file(sel, shards)
+    ok, states, trans = set(), 0, 0
+
+    def one(ix_part):
+        ix, part = ix_part
+        lines, _ = run_tlc(d, module, "SPECIFICATION TSpec\nCHECK_DEADLOCK FALSE\n", env={"TRACE": part}, workers=1, heap=heap,
+                           timeout=timeout, tag="%s_tv%d" % (module, ix))
+        acc = set()
+        for l in lines:
+            m = re.match(r'<<"TRACE-OK", (-?\d+)>>', l)
+            if m:
+                acc.add(int(m.group(1)))
+        return acc, tlc_stats(lines)
+
+    with concurrent.futures.ThreadPoolExecutor(max_workers=len(parts)) as ex:
+        for acc, st in ex.map(one, enumerate(parts)):
+            ok |= acc
+            states += st["distinct"]
+            trans += st["generated"]
+    return len(ids), ok, states, trans
+
+
 def load_scenarios(path):
     res = {}
     with open(path) as f:
@@ -255,8 +303,9 @@ def known_signatures(pid):
 def write_evidence(pid, tier, seed, level, coverage, wall, violations, assumptions):
     ev = {"property_id": pid, "tier": tier, "seed": seed, "level": level, "coverage": coverage,
           "assumptions": assumptions, "wall_s": round(wall, 2), "violations": violations}
-    os.makedirs(os.path.join(ROOT, "evidence"), exist_ok=True)
-    with open(os.path.join(ROOT, "evidence", pid + ".json"), "w") as f:
+    evdir = os.path.join(ROOT, "evidence") if not OUT_SUFFIX else os.path.join(ROOT, "out", "evidence" + OUT_SUFFIX)
+    os.makedirs(evdir, exist_ok=True)
+    with open(os.path.join(evdir, pid + ".json"), "w") as f:
         json.dump(ev, f, indent=1, sort_keys=True)
         f.write("\n")
 
